@@ -27,4 +27,29 @@ Counters == Distinct2(s) => /\ out.iz = Len(out.res) /\ out.ir >= 1 /\ out.ir <=
                             /\ \A k \in 1..Len(out.res) : Abs(out.res[k].L) <= out.mx
 RunsOrdered == \A i, j \in 1..Len(out.rows) : i < j => out.rows[i].run <= out.rows[j].run
 ExtremesBracket == \A k \in 1..Len(out.rows) : out.rows[k].eminLF <= 0 /\ out.rows[k].emaxLF >= 0
+(* ---- C05 model theorems ---- *)
+(* D for the running extremes: plain minimum / maximum over zero and every strain visited before the row was recorded *)
+ExtremesAreMinMax ==
+  \A k \in 1..Len(out.rows) :
+    LET w == out.rows[k]
+        seen == {0} \cup {out.strains[i] : i \in 1..w.nvis}
+    IN /\ w.eminLF = CHOOSE x \in seen : \A y \in seen : x <= y
+       /\ w.emaxLF = CHOOSE x \in seen : \A y \in seen : x >= y
+Flags(rows) == [k \in 1..Len(rows) |-> <<rows[k].closed, rows[k].zero, rows[k].run>>]
+(* decisions depend only on load ratios: a proportional history has the same flags / pass numbers, loads scaled *)
+ScaleInvariantDecisions ==
+  Distinct2(s) => LET o2 == TwoPass(Scaled([i \in 1..Len(s) |-> 3 * s[i]]))
+                  IN /\ Flags(o2.rows) = Flags(out.rows)
+                     /\ \A k \in 1..Len(out.rows) : o2.rows[k].lmin = 3 * out.rows[k].lmin /\ o2.rows[k].lmax = 3 * out.rows[k].lmax
+(* negating the loads mirrors all stresses and strains *)
+NegateMirrors ==
+  Distinct2(s) => LET o2 == TwoPass(Scaled([i \in 1..Len(s) |-> -s[i]]))
+                  IN /\ Flags(o2.rows) = Flags(out.rows)
+                     /\ \A k \in 1..Len(out.rows) :
+                          LET a == out.rows[k]  b == o2.rows[k] IN
+                          /\ b.lmin = -a.lmax /\ b.lmax = -a.lmin /\ b.smin = -a.smax /\ b.smax = -a.smin
+                          /\ b.emin = -a.emax /\ b.emax = -a.emin /\ b.eminLF = -a.emaxLF /\ b.emaxLF = -a.eminLF
+                     /\ o2.strains = [i \in 1..Len(out.strains) |-> -out.strains[i]]
+(* every recorded hysteresis has min <= max in every column; closed rows are spanned by two visited points *)
+RowsOrdered == \A k \in 1..Len(out.rows) : LET w == out.rows[k] IN w.lmin <= w.lmax /\ w.smin <= w.smax /\ w.emin <= w.emax
 =============================================================================
